@@ -274,14 +274,14 @@ class WebSocketResponse(StreamResponse, Generic[_DecodeText]):
         if "websocket" != headers.get(hdrs.UPGRADE, "").lower().strip():
             raise HTTPBadRequest(
                 text=(
-                    f"No WebSocket UPGRADE hdr: {headers.get(hdrs.UPGRADE)}\n Can "
+                    f"No WebSocket UPGRADE hdr: {headers.get(hdrs.UPGRADE)!r}\n Can "
                     '"Upgrade" only to "WebSocket".'
                 )
             )
 
         if not request._message.upgrade:
             raise HTTPBadRequest(
-                text=f"No CONNECTION upgrade hdr: {headers.get(hdrs.CONNECTION)}"
+                text=f"No CONNECTION upgrade hdr: {headers.get(hdrs.CONNECTION)!r}"
             )
 
         # find common sub-protocol between client and server
@@ -308,7 +308,7 @@ class WebSocketResponse(StreamResponse, Generic[_DecodeText]):
         # check supported version
         version = headers.get(hdrs.SEC_WEBSOCKET_VERSION, "")
         if version not in ("13", "8", "7"):
-            raise HTTPBadRequest(text=f"Unsupported version: {version}")
+            raise HTTPBadRequest(text=f"Unsupported version: {version!r}")
 
         # check client handshake for validity
         key = headers.get(hdrs.SEC_WEBSOCKET_KEY)
